@@ -120,6 +120,7 @@ def run(F, R):
     z8_pcm_complete(F, R, M, _roles, rule='P12')
     z7_release_after_pop(F, RuleProxy(R, {'Z7': 'P12'}), M, _roles)
     p14_pinned_buffers(F, R, M, _roles)
+    p15_owned_buffers_parked(F, R, M, _roles)
     # P13: a buffer is unshared in the direction it was shared in: the block driver's completion calls present the same
     # readable / writable lists to pop_used as the submission gave to add (C14.K3 shapes, K4 submission~completion siblings)
     from . import C14 as _c14
@@ -166,6 +167,68 @@ def p14_pinned_buffers(F, R, M, roles):
                     'field `%s: %s` of %s is handed to the queue in place: the buffer is part of the driver value, so moving the driver (returning it from the '
                     'constructor, boxing it) while the request is outstanding makes unshare see a different address range than share did' % (f, ty[:50], name.rsplit('::', 1)[1]))
     R.count('posting_drivers', n)
+
+
+def p15_owned_buffers_parked(F, R, M, roles):
+    """A buffer the method itself allocated (a Vec / Box local) and posted with the non-blocking `add` must outlive the method:
+    on every successful path it is moved into the driver's state (inserted / pushed / assigned to a field of self) - otherwise it
+    is freed at the end of the method while the device still owns it and can never be unshared with the range it was shared with."""
+    n = 0
+    for b in F.bodies.values():
+        if not F.handwritten(b) or b['kind'] != 'AssocFn' or b.get('impl_adt') in (M.queue_adt, M.owning_adt) or not b.get('impl_adt'):
+            continue
+        if not any(bl['term']['k'] == 'call' and roles.get(bl['term'].get('fn')) == 'add' for bl in b['blocks']):
+            continue
+        sg = supergraph(F, b['id'], tag='flat', max_depth=0)
+        S = sg.sym
+        fn = sg.entry_fn
+        oks = [x.id for x in sg.nodes if x.kind == 'assign' and not x.d['place']['p'] and x.d['place']['l'] == 0 and x.d['rv']['rv'] == 'agg' and x.d['rv'].get('variant') == 'Ok']
+        for a in sg.calls(lambda d: roles.get(d.get('fn')) == 'add'):
+            owned = set()
+            for arg in a.d['args'][1:3]:
+                for x in deep_subterms(S, S.operand(a.id, arg)):
+                    if x[0] == 'loc' and x[1][0] == 'local' and x[1][1] == 0 and x[1][2] > fn['arg_count']:
+                        ty = fn['locals'][x[1][2]]['ty']
+                        if (ty.startswith('alloc::vec::Vec<') or ty.startswith('alloc::boxed::Box<')) and fn['locals'][x[1][2]].get('name'):
+                            owned.add(x[1][2])
+            for l in sorted(owned):
+                n += 1
+                parked = []
+                # temporaries the value is moved through (`_t = move buf; Struct { field: move _t }`)
+                alias = {l}
+                for _ in range(3):
+                    for m in sg.nodes:
+                        if m.kind == 'assign' and m.d['rv']['rv'] == 'use' and not m.d['place']['p']:
+                            mv = m.d['rv']['op'].get('move')
+                            if mv and mv['l'] in alias and not mv['p']:
+                                alias.add(m.d['place']['l'])
+                for m in sg.nodes:
+                    ops = []
+                    if m.kind == 'call' and m.inl is None:
+                        ops = m.d['args']
+                    elif m.kind == 'assign' and m.d['rv']['rv'] in ('use', 'agg'):
+                        ops = [m.d['rv']['op']] if m.d['rv']['rv'] == 'use' else m.d['rv']['ops']
+                    if not any(o.get('move') and o['move']['l'] in alias and not o['move']['p'] for o in ops if isinstance(o, dict)):
+                        continue
+                    if m.kind == 'assign' and m.d['rv']['rv'] == 'use' and not m.d['place']['p']:
+                        continue      # the move into a temporary itself
+                    # moved into something rooted at self?
+                    tgt = None
+                    if m.kind == 'call' and m.d['args']:
+                        tgt = S.operand(m.id, m.d['args'][0])
+                    elif m.kind == 'assign':
+                        tgt = ('ref', S.place_loc(m.id, m.d['place']))
+                        if m.d['rv']['rv'] == 'agg' and m.d['rv'].get('adt') == b.get('impl_adt'):
+                            parked.append(m.id)      # a constructor moves it into the driver value it returns
+                            continue
+                    if tgt is not None and any(x[0] == 'loc' and x[1][0] == 'deref' and strip_ptr(x[1][1]) == ('param', 1) for x in deep_subterms(S, tgt)):
+                        parked.append(m.id)
+                ok = bool(parked) and all(sg.always_before(parked, o) for o in oks if a.id in sg.reach_bwd([o]))
+                R.check(ok, 'P15', '%s:%s:owned-buffer-parked' % (b['id'], fn['locals'][l].get('name')), site(sg, a),
+                        'the posted allocation `%s` is moved into the driver state on every successful path' % fn['locals'][l].get('name'),
+                        '`%s` (%s) is posted to the queue with the non-blocking add but is not kept in the driver state on every successful path: it is freed when %s '
+                        'returns, while the device still uses it' % (fn['locals'][l].get('name'), fn['locals'][l]['ty'][:40], b['name']))
+    R.count('owned_posted_buffers', n)
 
 
 def dma_field_roles(F, M):
